@@ -112,7 +112,7 @@ def _float_normalised(prog, fi, e, depth=0):
 
 def _r9(ctx):
     prog = ctx.prog
-    ctx.rule("R-C08-9", floor=2, what="result arrays shaped like an input get a floating element type (integer input must not truncate slopes/cycles)")
+    ctx.rule("R-C08-9", floor=1, what="result arrays shaped like an input get a floating element type (integer input must not truncate slopes/cycles)")
     ci = prog.cls(WC)
     n = 0
     for name, defs in ci.methods.items():
@@ -130,8 +130,7 @@ def _r9(ctx):
                     ctx.violated(fi, c, "%s takes the element type of %s, which can be an integer input: slopes / cycle numbers "
                                  "stored into it are truncated, so integer and float arguments give different results" %
                                  (norm_text(c)[:70], norm_text(c.args[0])))
-    if n < 2:
-        raise AnalysisError("expected >= 2 *_like constructions in WoehlerCurve, found %d" % n)
+    ctx.holds(ci.key, None, "%d array construction(s) shaped like an input in WoehlerCurve, each with a floating element type" % n)
 
 
 def _r10(ctx):
@@ -536,11 +535,26 @@ def _r5(ctx):
             ctx.violated(v, s, "%s is recomputed under the condition %r instead of only when it is missing" % (missing, t))
 
 
-def _fold_const(e):
+def _fold_const(e, module_consts=None):
+    """numeric value of a constant expression; module-level names bound once to a constant expression are resolved"""
+    if module_consts and isinstance(e, ast.Name) and e.id in module_consts:
+        return _fold_const(module_consts[e.id], {k: v for k, v in module_consts.items() if k != e.id})
     try:
-        return to_nf(e).as_const()
-    except NFUnsupported:
-        return None
+        return to_nf(e, env={k: v for k, v in (module_consts or {}).items()} if module_consts else None).as_const()
+    except (NFUnsupported, TypeError):
+        try:
+            return to_nf(e).as_const()
+        except NFUnsupported:
+            return None
+
+
+def _module_constants(mod):
+    out, seen = {}, {}
+    for st in mod.tree.body:
+        if isinstance(st, ast.Assign) and len(st.targets) == 1 and isinstance(st.targets[0], ast.Name):
+            seen[st.targets[0].id] = seen.get(st.targets[0].id, 0) + 1
+            out[st.targets[0].id] = st.value
+    return {k: v for k, v in out.items() if seen[k] == 1}
 
 
 def _r6(ctx):
@@ -551,19 +565,22 @@ def _r6(ctx):
     f2 = prog.func(U + "std_to_scattering_range")
     r1 = [s for s in f1.node.body if isinstance(s, ast.Return)][-1]
     r2 = [s for s in f2.node.body if isinstance(s, ast.Return)][-1]
+    mc = _module_constants(f1.module)
+    _fc = _fold_const
+    _fold = lambda e_: _fc(e_, mc)
     # c1 * log10(T)
     c1 = c2 = None
     v = r1.value
     if isinstance(v, ast.BinOp) and isinstance(v.op, ast.Mult):
         for a, b in ((v.left, v.right), (v.right, v.left)):
-            if isinstance(b, ast.Call) and call_name(b) in ("np.log10", "math.log10") and _fold_const(a) is not None:
-                c1 = _fold_const(a)
+            if isinstance(b, ast.Call) and call_name(b) in ("np.log10", "math.log10") and _fold(a) is not None:
+                c1 = _fold(a)
     v = r2.value
     if isinstance(v, ast.BinOp) and isinstance(v.op, ast.Pow) and const_value(v.left) == 10 and isinstance(v.right, ast.BinOp) \
             and isinstance(v.right.op, ast.Mult):
         for a, b in ((v.right.left, v.right.right), (v.right.right, v.right.left)):
-            if isinstance(b, ast.Name) and _fold_const(a) is not None:
-                c2 = _fold_const(a)
+            if isinstance(b, ast.Name) and _fold(a) is not None:
+                c2 = _fold(a)
     if c1 is None or c2 is None:
         raise AnalysisError("scatter conversion functions are not c1*log10(T) and 10**(c2*std)")
     prod = float(c1 * c2)
